@@ -596,8 +596,10 @@ def instances(tier):
             out.append(Inst(netmsg_rt, dict(mt=mt, lists=[20], nents=[], infolens=[]),
                             budget=400, label="mt=0x%02x,20 networks" % mt))
         for mt in (0x06, 0x07):
-            out.append(Inst(netmsg_rt, dict(mt=mt, lists=[], nents=[3, 5], infolens=[0, 3]),
-                            budget=400, label="mt=0x%02x,3 or 5 ports" % mt))
+            for ne in (3, 5):
+                for il in (0, 3):
+                    out.append(Inst(netmsg_rt, dict(mt=mt, lists=[], nents=[ne], infolens=[il]),
+                                    budget=900, label="mt=0x%02x,%d ports,%d octets of port info" % (mt, ne, il)))
             out.append(Inst(netmsg_rt, dict(mt=mt, lists=[], nents=[1], infolens=[255]),
                             budget=400, label="mt=0x%02x,255 octets of port info" % mt))
     return out
